@@ -684,7 +684,14 @@ impl Monitor for C03 {
             // ---------------- direction 1
             match pk {
                 PK::Cnf | PK::Wcnf | PK::Gcnf => {
-                    let doc = gen::gen_dimacs(rng, pk, cfg.lt, true, size);
+                    // a third of the documents: any header at all (counts that do not fit the clauses),
+                    // written and then parsed with ignore_header(true), which promises not to enforce it
+                    let any_header = rng.chance(1, 3);
+                    if any_header {
+                        cfg.flag = true;
+                        rep.inc("choice:arbitrary_header_parsed_with_ignore_header");
+                    }
+                    let doc = gen::gen_dimacs(rng, pk, cfg.lt, !any_header, size);
                     let written = sut(|| write_dimacs(&doc, cfg.lt));
                     let max = gen::max_dimacs(cfg.lt);
                     if doc.clauses.iter().any(|c| c.1.iter().any(|&l| l == max || l == -max)) {
